@@ -226,6 +226,54 @@ pub fn run(data: &[u8], ctx: &mut Ctx) -> Outcome {
     if src.chance(36) {
         return recipient_consequence(ctx, &mut src, &e, &m);
     }
+    if src.chance(30) {
+        return sskr_consequence(ctx, &mut src, &e, &m);
+    }
+    Outcome::Pass
+}
+
+/// The same for SSKR: share envelopes of a 2-of-3 split, one of them with a part obscured by its holder
+/// (the encrypted subject of a share that is not presented first, or any element other than the share
+/// itself) - no digest changes, the quorum still reconstructs the original subject.
+fn sskr_consequence(ctx: &mut Ctx, src: &mut Src, e: &Envelope, m: &M) -> Outcome {
+    let share_pred = M::Known(6).digest();
+    if m.is_obscured() || matches!(m.subject(), M::Encrypted(..) | M::Elided(_)) || m.assertions().iter().any(|a| matches!(a.subject(), M::Assertion(p, _) if p.digest() == share_pred)) {
+        return Outcome::Pass;
+    }
+    let ck = bc_components::SymmetricKey::from_data_ref(src.bytes(32)).unwrap();
+    let enc = tryp!(ctx, nopanic!(ctx, e.encrypt_subject(&ck).map_err(|x| x.to_string()), "sskr", "C02/sskr/split"), "sskr", "C02/sskr/split");
+    let spec = bc_components::SSKRSpec::new(1, vec![bc_components::SSKRGroupSpec::new(2, 3).unwrap()]).unwrap();
+    let shares = tryp!(ctx, nopanic!(ctx, enc.sskr_split_flattened(&spec, &ck).map_err(|x| x.to_string()), "sskr", "C02/sskr/split"), "sskr", "C02/sskr/split");
+    check!(ctx, shares.len() == 3, "sskr", "C02/sskr/split", "a 2-of-3 split returned {} share envelopes", shares.len());
+    let a = src.below(3);
+    let b = (a + 1 + src.below(2)) % 3;
+    let first = shares[a].clone();
+    let second = shares[b].clone();
+    let sm = tryp!(ctx, bridge::read_out(&second), "sskr", "C02/sskr/readout");
+    // what the holder of the second share obscures: the encrypted subject, or an element that is not part
+    // of the 'sskrShare' assertion
+    let own_share: BTreeSet<D32> = sm
+        .assertions()
+        .iter()
+        .filter(|x| matches!(x.subject(), M::Assertion(p, _) if p.digest() == share_pred))
+        .flat_map(|x| x.elements().into_iter().map(|y| y.digest()).collect::<Vec<_>>())
+        .collect();
+    let cands: Vec<D32> = sm.elements().iter().skip(1).map(|x| x.digest()).filter(|d| !own_share.contains(d)).collect();
+    if cands.is_empty() {
+        return Outcome::Pass;
+    }
+    let victim = if src.chance(128) { sm.subject().digest() } else { cands[src.below(cands.len())] };
+    let action = if victim == sm.subject().digest() { Obs::Elide } else { gen_obs(src) };
+    let mut t = BTreeSet::new();
+    t.insert(victim);
+    let changed = nopanic!(ctx, apply_elide(&second, &t, false, action, src.below(7)), "sskr", "C02/sskr/transform");
+    check!(ctx, changed.digest() == second.digest(), "sskr", "C02/sskr/transform", "obscuring part of a share envelope changed its digest");
+    ctx.class(&format!("sskr:{}:{:?}", if victim == sm.subject().digest() { "subject-of-a-later-share" } else { "other-element" }, action));
+    let r = nopanic!(ctx, Envelope::sskr_join(&[&first, &changed]).map(|x| d32(&x.digest())).map_err(|x| x.to_string()), "sskr", "C02/sskr/join");
+    check!(ctx, r == Ok(m.subject().digest()), "sskr", "C02/sskr/join", "two of three shares, the second one with a part obscured by its holder (no digest changed): join gives {:?}, expected the original subject", r);
+    ctx.fingerprint(&[0x54, action as u8]);
+    ctx.fingerprint(&victim);
+    ctx.nontrivial = true;
     Outcome::Pass
 }
 
